@@ -802,6 +802,19 @@ def Op.deviant (l : Bits) : Op → Bool
   | .byteswap f s e rep => byteswapNoRepeatPastEnd l f s e rep
   | _ => false
 
+/-- Operations that are not length-changing by definition. -/
+def Op.keepsLength : Op → Bool
+  | .setItem _ (.int _) | .setSlice _ _ _ (.int _) | .reverse _ _ | .rol _ _ _ | .ror _ _ _
+  | .set _ _ | .invert _ | .byteswap _ _ _ _ | .ishl _ | .ishr _ | .iand _ | .ior _ | .ixor _ => true
+  | _ => false
+
+/-- Operations that have no known-deviation region at all. -/
+def Op.neverDeviant : Op → Bool
+  | .append _ | .prepend _ | .delItem _ | .delSlice _ _ _ | .setItem _ _ | .setSlice _ _ _ (.bits _)
+  | .reverse _ _ | .invert _ | .set _ (.one _) | .set _ (.many _) | .ishl _ | .ishr _ | .imul _
+  | .iand _ | .ior _ | .ixor _ | .clear => true
+  | _ => false
+
 /-- A history: the outcome of every step, each step acting on the content the previous one left. -/
 def run (step : Bits → Op → Outcome) : List Op → Bits → List Outcome
   | [], _ => []
